@@ -228,6 +228,20 @@ CLAIMED['C19'] = dict(
          'fori vs python loop), not by a theorem. Two defects found and repaired by fix: commits.'),
    note=BASE_TB + ' harness/translate/optloop.py (Python-ast data-flow, fail-closed) regenerates coq/Gen/OptLoop.v. Rewards enter the model through their order only (dense ranks; NaN / -inf lowest); argpartition\'s unspecified order and tie-breaking are abstracted by comparing multisets of rewards.',
    technique='Rocq proof (insertion-sort / truncation commutation lemma, induction over steps) + translator + vm_compute correspondence on rank-encoded evaluation logs + re-scoring monitor', design='5/C19')
+CLAIMED['C20'] = dict(
+   text=('Theorems (all closed under the global context), for an experimenter modelled as an ARBITRARY function from points to metric values: '
+         'with the goal table obtained by interpreting the if / elif chain of SignFlipExperimenter.problem_statement on every run, sign flipping is '
+         'an involution on values and goals at every point of every base experimenter, one flip negates every objective and changes every goal '
+         '(C20_flip_is_an_involution, C20_flip_negates_and_swaps), and a table that leaves MAXIMIZE in place is REFUTED; shifting / permuting '
+         'evaluate the base at the mapped point and commute with sign flipping in any stacking; a permutation dictionary with duplicate-free '
+         'keys whose values are keys maps feasible values to feasible values; normalising with a positive std preserves the order of objective '
+         'values. C20_source_as_modelled ties to the source: every problem_statement() is by value, the point-moving wrappers save and restore the '
+         'suggested parameters, shifting subtracts the shift, objectives are multiplied by -1. PARTIAL: the base objective functions, converters '
+         'inside shifting / hyper-cube / discretizing, noise generators and the completion of trials are decided by the monitor over every BBOB '
+         'function, Branin, Hartmann, SimpleKD, multi-objective and random stacks of wrappers, not by a theorem. Four defects found and '
+         'repaired by fix: commits.'),
+   note=BASE_TB + ' harness/translate/exptrs.py regenerates coq/Gen/Exptrs.v (goal chain interpreted; other wrappers checked for their statement shapes). Relations against a stochastic (noisy) inner experimenter are not checked point by point.',
+   technique='Rocq proof (equational reasoning over wrapper operators) + translator (mini-interpreter of the goal chain) + vm_compute correspondence + relation monitor', design='5/C20')
 ALL = ['C%02d' % i for i in range(1, 21)]
 m = {
  'version': 1,
